@@ -4,6 +4,7 @@ from __future__ import annotations
 
 from typing import Any
 
+from .model import AnalysisError
 from .interp import TOP, NOT_HANDLED, Ext, truth, SliceV
 from .domains import Poly, Event, Ratio, LogRatio, Bad
 
@@ -44,6 +45,9 @@ def _b(x):
 
 def elementwise(name: str, args: list, kwargs: dict) -> Any:
     """Element-level semantics of a numpy function; NOT_HANDLED if unknown."""
+    if kwargs.get('out') is not None or kwargs.get('where') is not None:
+        # the call writes into `out` (for the elements selected by `where`): not a pure element function
+        raise AnalysisError('engine', f'numpy.{name}', 'out= / where= of a numpy call is not modelled for abstract operands')
     if name == 'logical_and' and len(args) == 2:
         a, b = _b(args[0]), _b(args[1])
         if a is False or b is False:
